@@ -12,7 +12,7 @@ ALPHA = [("post_fifo", x) for x in "ABCFGT"] + [("post_lifo", x) for x in "ABCFH
 
 def run(tier):
     res = Result(PID)
-    depth = 6 if tier == "quick" else 8
+    depth = 6 if tier == "quick" else 7
     queued.run_bfs(res, PID, ALPHA, depth)
     res.coverage["rule"] = ("BFS over operation sequences of depth <= %d over %r on a real HsmWithQueues chart (spied and plain "
                             "states) vs a list; states = distinct queue contents; every transition compares return value, "
